@@ -46,6 +46,7 @@ type Contract struct {
 	file     string
 	line     int
 	nofresh  bool
+	nullable []string
 }
 
 type SpecFunc struct {
@@ -500,6 +501,12 @@ func parseContractFile(pkg, path, src string) (*ContractFile, error) {
 		case "trusted":
 			if cur != nil {
 				cur.trusted = true
+			}
+		case "nullable":
+			if cur != nil {
+				for _, f := range strings.Fields(strings.ReplaceAll(rest, ",", " ")) {
+					cur.nullable = append(cur.nullable, f)
+				}
 			}
 		case "spec":
 			// spec name(a T, b T) T = expr
